@@ -1,600 +1,14 @@
-//! Stage 1 of the compiled-code checks: generates record definitions over real field types, runs
-//! them through truc, and writes truc's output verbatim (`def_k.rs`) next to a thin dynamic
-//! adapter (`glue_k.rs`, generated from the definition, no offsets, no oracle) and `all.rs`.
-//!
 //! usage: e2_genstage gen <count> <out dir> [exclude k,k,...]
 //!        e2_genstage single <case.json> <out dir>       (one definition from a replay file)
 
-use std::{collections::BTreeMap, fmt::Write as _, fs, path::Path, process::ExitCode};
+use std::{fs, path::Path, process::ExitCode};
 
+use e2_genstage::*;
 use proptest::{
-    prelude::*,
-    strategy::ValueTree,
+    strategy::{Strategy, ValueTree},
     test_runner::{Config, RngSeed, TestRunner},
 };
-use serde::{Deserialize, Serialize};
-use truc::{
-    generator::{
-        config::GeneratorConfig,
-        fragment::{clone::CloneImplGenerator, serde::SerdeImplGenerator, FragmentGenerator},
-        generate,
-    },
-    record::{
-        definition::{
-            builder::native::{DatumDefinitionOverride, NativeRecordDefinitionBuilder},
-            DatumId, NativeDatumDetails, RecordDefinition,
-        },
-        type_resolver::{HostTypeResolver, TypeResolver},
-    },
-};
-use vcore::{close_with, datum_index, env_seed, mix_seed, pick, strat_strategy, Strat};
-use vtypes::{with_menu_type, MENU};
-
-#[derive(Clone, Debug, Serialize, Deserialize, PartialEq, Eq, Hash)]
-pub enum RReq {
-    Add { menu: u16, uninit: bool, name: Option<u8> },
-    Remove { sel: u16 },
-    Close { strat: Strat },
-}
-
-#[derive(Clone, Debug, Serialize, Deserialize, PartialEq, Eq, Hash)]
-pub struct RHistory {
-    pub reqs: Vec<RReq>,
-    pub final_strat: Strat,
-    /// bit 0: clone fragment, bit 1: serde fragment
-    pub fragsel: u8,
-}
-
-const NAME_POOL: [&str; 12] =
-    ["alpha", "beta", "gamma", "delta", "eps", "zeta", "count2", "is_ok", "the_value", "x_1", "kappa_mu", "n0"];
-
-/// Weighted menu: tokens and owned types are over-represented.
-const WEIGHTED: [usize; 56] = [
-    0, 1, 2, 3, 4, 5, 6, 7, 8, 9, 10, 11, 12, 13, 14, 15, 16, 17, 18, 19, 20, 21, 22, 23, 24, 25, 26, 27, 28, 29, 30, // once each
-    22, 23, 24, 25, 26, 27, 28, 22, 24, 26, 28, // tokens
-    17, 18, 19, 20, 21, 17, // owned
-    12, 13, 14, 5, 8, 2, 3, 0, // zero-size, odd sizes, integers
-];
-
-fn add_req() -> impl Strategy<Value = RReq> {
-    (any::<u16>(), prop::bool::weighted(0.4), prop::option::weighted(0.5, 0u8..12)).prop_map(|(menu, uninit, name)| RReq::Add { menu, uninit, name })
-}
-
-/// One variant: removals of carried-over data, additions, possibly the removal of a datum that is
-/// still pending, then the close.
-fn block(first: bool) -> impl Strategy<Value = Vec<RReq>> {
-    (
-        prop::collection::vec(any::<u16>().prop_map(|sel| RReq::Remove { sel }), if first { 0..1 } else { 0..4 }),
-        prop::collection::vec(add_req(), if first { 1..7 } else { 0..5 }),
-        prop::option::weighted(0.15, any::<u16>()),
-        prop_oneof![6 => Just(Strat::Simple), 2 => Just(Strat::Basic), 1 => Just(Strat::Append), 1 => Just(Strat::AppendReverse)],
-        prop::bool::weighted(0.08),
-    )
-        .prop_map(|(removes, adds, pending_removal, strat, empty)| {
-            let mut v = vec![];
-            if !empty {
-                v.extend(removes);
-                v.extend(adds);
-                if let Some(sel) = pending_removal {
-                    // the last current datum is the most recently added one
-                    v.push(RReq::Remove { sel: sel | 0xF000 });
-                }
-            }
-            v.push(RReq::Close { strat });
-            v
-        })
-}
-
-fn rhistory() -> impl Strategy<Value = RHistory> {
-    (block(true), prop_oneof![1 => Just(vec![]).boxed(), 9 => prop::collection::vec(block(false), 1..6).boxed()], strat_strategy(), 0u8..4).prop_map(|(first, rest, final_strat, fragsel)| {
-        let mut reqs = first;
-        for b in rest {
-            reqs.extend(b);
-        }
-        RHistory { reqs, final_strat, fragsel }
-    })
-}
-
-pub struct Built {
-    pub def: RecordDefinition<NativeDatumDetails>,
-    /// datum id -> menu index
-    pub menu: BTreeMap<usize, usize>,
-}
-
-const MAX_VARIANTS: usize = 6;
-const MAX_FIELDS: usize = 9;
-
-pub fn build(h: &RHistory) -> Built {
-    static HOST: HostTypeResolver = HostTypeResolver;
-    let mut b = NativeRecordDefinitionBuilder::new(&HOST);
-    let mut menu = BTreeMap::new();
-    let mut counter = 0usize;
-    let mut closes = 0usize;
-    let mut pending = false;
-    for req in &h.reqs {
-        match req {
-            RReq::Add { menu: m, uninit, name } => {
-                if b.get_current_data().count() >= MAX_FIELDS {
-                    continue;
-                }
-                let mut idx = WEIGHTED[pick(*m, WEIGHTED.len())];
-                if h.fragsel & 2 == 2 && !MENU[idx].serde_ok {
-                    idx = 3;
-                }
-                let info = with_menu_type!(idx, T => HOST.type_info::<T>());
-                let pooled = name.map(|n| NAME_POOL[n as usize % NAME_POOL.len()]).filter(|n| b.get_current_datum_definition_by_name(n).is_none());
-                let field_name = match pooled {
-                    Some(n) => n.to_string(),
-                    None => format!("f{}", counter),
-                };
-                counter += 1;
-                let id = b
-                    .add_datum_override::<(), _>(
-                        field_name,
-                        DatumDefinitionOverride {
-                            type_name: Some(info.name),
-                            size: Some(info.size),
-                            align: Some(info.align),
-                            allow_uninit: Some(*uninit && MENU[idx].copy),
-                        },
-                    )
-                    .expect("valid add");
-                menu.insert(datum_index(id), idx);
-                pending = true;
-            }
-            RReq::Remove { sel } => {
-                let cur: Vec<DatumId> = b.get_current_data().collect();
-                if cur.is_empty() {
-                    continue;
-                }
-                b.remove_datum(cur[pick(*sel, cur.len())]).expect("valid remove");
-                pending = true;
-            }
-            RReq::Close { strat } => {
-                if closes >= MAX_VARIANTS {
-                    continue;
-                }
-                close_with(&mut b, *strat);
-                closes += 1;
-                pending = false;
-            }
-        }
-    }
-    if pending || closes == 0 {
-        close_with(&mut b, h.final_strat);
-    }
-    Built { def: b.build(), menu }
-}
-
-pub fn config_for(sel: u8) -> GeneratorConfig {
-    let mut custom: Vec<Box<dyn FragmentGenerator>> = vec![];
-    if sel & 1 == 1 {
-        custom.push(Box::new(CloneImplGenerator));
-    }
-    if sel & 2 == 2 {
-        custom.push(Box::new(SerdeImplGenerator));
-    }
-    GeneratorConfig::default_with_custom_generators(custom)
-}
-
-struct F {
-    id: usize,
-    name: String,
-    #[allow(dead_code)]
-    menu: usize,
-    uninit: bool,
-}
-
-fn fields_of(built: &Built, variant_index: usize) -> Vec<F> {
-    let v = built.def.variants().nth(variant_index).expect("variant");
-    v.data_sorted()
-        .map(|d| {
-            let datum = &built.def[d];
-            F {
-                id: datum_index(d),
-                name: datum.name().to_string(),
-                menu: built.menu[&datum_index(d)],
-                uninit: datum.details().allow_uninit(),
-            }
-        })
-        .collect()
-}
-
-fn make_expr(f: &F) -> String {
-    format!("{}: vtypes::FieldType::make(vdrive::ctx::seed({}))", f.name, f.id)
-}
-
-/// The dynamic adapter of one definition.
-pub fn glue_for(built: &Built, index: usize, fragsel: u8, history: &RHistory) -> String {
-    let n = built.def.variants().count();
-    let has_clone = fragsel & 1 == 1;
-    let has_serde = fragsel & 2 == 2;
-    let mut s = String::new();
-    let w = &mut s;
-    writeln!(w, "// glue for definition #{} (generated by e2_genstage from the RecordDefinition; no offsets, no oracle)", index).unwrap();
-    for v in 0..n {
-        let fs = fields_of(built, v);
-        let last = v + 1 == n;
-        // conversion helper
-        if !last {
-            let next = fields_of(built, v + 1);
-            let added: Vec<&F> = next.iter().filter(|f| !fs.iter().any(|g| g.id == f.id)).collect();
-            let removed: Vec<&F> = fs.iter().filter(|f| !next.iter().any(|g| g.id == f.id)).collect();
-            let full_in = format!(
-                "UnpackedRecordIn{} {{ {} }}",
-                v + 1,
-                added.iter().map(|f| make_expr(f)).collect::<Vec<_>>().join(", ")
-            );
-            let uninit_in = format!(
-                "UnpackedUninitRecordIn{} {{ {} }}",
-                v + 1,
-                added.iter().filter(|f| !f.uninit).map(|f| make_expr(f)).collect::<Vec<_>>().join(", ")
-            );
-            let out_pat = format!(
-                "Record{}AndUnpackedOut {{ record: r__{} }}",
-                v + 1,
-                removed.iter().enumerate().map(|(k, f)| format!(", {}: o_{}", f.name, k)).collect::<String>()
-            );
-            let outs_vec = format!(
-                "vec![{}]",
-                removed
-                    .iter()
-                    .enumerate()
-                    .map(|(k, f)| format!("({}usize, Box::new(o_{}) as Box<dyn vtypes::DynField>)", f.id, k))
-                    .collect::<Vec<_>>()
-                    .join(", ")
-            );
-            writeln!(
-                w,
-                r#"
-fn conv_{v}<const CAP: usize>(rec: CappedRecord{v}<CAP>, form: u8) -> (CappedRecord{nv}<CAP>, vdrive::ctx::Outs) {{
-    match form {{
-        0 => {{
-            let n__: CappedRecord{nv}<CAP> = From::from((rec, {full_in}));
-            (n__, Vec::new())
-        }}
-        1 => {{
-            let n__: CappedRecord{nv}<CAP> = From::from((rec, {uninit_in}));
-            (n__, Vec::new())
-        }}
-        2 => {{
-            let out__: Record{nv}AndUnpackedOut<CAP> = From::from((rec, {full_in}));
-            let {out_pat} = out__;
-            let outs__: vdrive::ctx::Outs = {outs_vec};
-            (r__, outs__)
-        }}
-        _ => {{
-            let out__: Record{nv}AndUnpackedOut<CAP> = From::from((rec, {uninit_in}));
-            let {out_pat} = out__;
-            let outs__: vdrive::ctx::Outs = {outs_vec};
-            (r__, outs__)
-        }}
-    }}
-}}"#,
-                v = v,
-                nv = v + 1,
-                full_in = full_in,
-                uninit_in = uninit_in,
-                out_pat = out_pat,
-                outs_vec = outs_vec
-            )
-            .unwrap();
-        }
-        let arms = |f: &dyn Fn(&F) -> String, default: &str| -> String {
-            let mut a = String::new();
-            for x in &fs {
-                write!(a, "            {} => {},\n", x.id, f(x)).unwrap();
-            }
-            write!(a, "            _ => {},", default).unwrap();
-            a
-        };
-        let nodatum = format!("panic!(\"glue: no datum {{}} in variant {}\", datum)", v);
-        let unpack_pat = format!(
-            "UnpackedRecord{} {{ {} }}",
-            v,
-            fs.iter().enumerate().map(|(k, f)| format!("{}: f_{}", f.name, k)).collect::<Vec<_>>().join(", ")
-        );
-        let unpack_vec = format!(
-            "vec![{}]",
-            fs.iter()
-                .enumerate()
-                .map(|(k, f)| format!("({}usize, Box::new(f_{}) as Box<dyn vtypes::DynField>)", f.id, k))
-                .collect::<Vec<_>>()
-                .join(", ")
-        );
-        writeln!(
-            w,
-            r#"
-impl<const CAP: usize> vdrive::RecGlue for CappedRecord{v}<CAP> {{
-    fn variant(&self) -> usize {{ {v} }}
-    fn get(&self, datum: usize) -> u64 {{
-        match datum {{
-{get_arms}
-        }}
-    }}
-    fn tok(&self, datum: usize) -> Option<u64> {{
-        match datum {{
-{tok_arms}
-        }}
-    }}
-    fn set(&mut self, datum: usize, seed: u64) {{
-        match datum {{
-{set_arms}
-        }}
-    }}
-    fn mutate(&mut self, datum: usize, seed: u64) {{
-        match datum {{
-{mut_arms}
-        }}
-    }}
-    fn with_stack(&mut self, f: &mut dyn FnMut(&mut dyn vdrive::RecGlue)) {{ vdrive::via_stack(self, f) }}
-    fn rebox(self: Box<Self>) -> Box<dyn vdrive::RecGlue> {{ let r: Self = *self; Box::new(r) }}
-    fn unpack_dyn(self: Box<Self>) -> vdrive::ctx::Outs {{
-        let {unpack_pat} = (*self).unpack();
-        let outs__: vdrive::ctx::Outs = {unpack_vec};
-        outs__
-    }}
-    fn convert_dyn(self: Box<Self>, form: u8) -> (Box<dyn vdrive::RecGlue>, vdrive::ctx::Outs) {{
-        {convert_body}
-    }}
-    fn clone_dyn(&self) -> Option<Box<dyn vdrive::RecGlue>> {{ {clone_body} }}
-    fn clone_from_dyn(&mut self, source: &dyn vdrive::RecGlue) -> bool {{ {clone_from_body} }}
-    fn ser(&self, fmt: u8) -> Option<Result<Vec<u8>, String>> {{ {ser_body} }}
-    fn field_json(&self, datum: usize) -> Option<String> {{ {field_json_body} }}
-    fn new_vec(&self) -> Box<dyn vdrive::VecGlue> {{ Box::new(VecOf{v}::<CAP>(Vec::new())) }}
-    fn addr(&self) -> usize {{ self as *const Self as usize }}
-    fn into_any(self: Box<Self>) -> Box<dyn std::any::Any> {{ self }}
-    fn as_any(&self) -> &dyn std::any::Any {{ self }}
-}}
-
-/// A vector of records of variant {v} (newtype only because of the orphan rule).
-pub struct VecOf{v}<const CAP: usize>(pub Vec<CappedRecord{v}<CAP>>);
-
-impl<const CAP: usize> vdrive::VecGlue for VecOf{v}<CAP> {{
-    fn variant(&self) -> usize {{ {v} }}
-    fn len(&self) -> usize {{ self.0.len() }}
-    fn push(&mut self, rec: Box<dyn vdrive::RecGlue>) {{
-        let r: Box<CappedRecord{v}<CAP>> = rec.into_any().downcast().expect("glue: record type");
-        self.0.push(*r);
-    }}
-    fn pop(&mut self) -> Option<Box<dyn vdrive::RecGlue>> {{ self.0.pop().map(|r| Box::new(r) as Box<dyn vdrive::RecGlue>) }}
-    fn at(&mut self, index: usize) -> &mut dyn vdrive::RecGlue {{ &mut self.0[index] }}
-    fn buffer(&self) -> (usize, usize) {{ (self.0.as_ptr() as usize, self.0.capacity()) }}
-    fn convert_all(self: Box<Self>, form: u8) -> Result<Box<dyn vdrive::VecGlue>, ()> {{
-        {convert_all_body}
-    }}
-}}"#,
-            v = v,
-            get_arms = arms(&|x| format!("vtypes::FieldType::digest(self.{}())", x.name), &nodatum),
-            tok_arms = arms(&|x| format!("vtypes::FieldType::tok_id(self.{}())", x.name), "None"),
-            set_arms = arms(&|x| format!("{{ *self.{}_mut() = vtypes::FieldType::make(seed); }}", x.name), &nodatum),
-            mut_arms = arms(&|x| format!("vtypes::FieldType::mutate(self.{}_mut(), seed)", x.name), &nodatum),
-            unpack_pat = unpack_pat,
-            unpack_vec = unpack_vec,
-            convert_body = if last {
-                "let _ = form; panic!(\"glue: no next variant\")".to_string()
-            } else {
-                format!("let (r, o) = conv_{}::<CAP>(*self, form); (Box::new(r), o)", v)
-            },
-            clone_body = if has_clone { "Some(Box::new(Clone::clone(self)))" } else { "None" },
-            clone_from_body = if has_clone {
-                "match source.as_any().downcast_ref::<Self>() { Some(s) => { Clone::clone_from(self, s); true } None => false }"
-            } else {
-                "let _ = source; false"
-            },
-            ser_body = if has_serde {
-                "Some(match fmt { 0 => serde_json::to_vec(self).map_err(|e| e.to_string()), 1 => serde_json::to_value(self).map(|v| v.to_string().into_bytes()).map_err(|e| e.to_string()), _ => bincode::serialize(self).map_err(|e| e.to_string()) })"
-            } else {
-                "let _ = fmt; None"
-            },
-            field_json_body = if has_serde {
-                format!(
-                    "match datum {{\n{}\n        }}",
-                    arms(&|x| format!("serde_json::to_value(self.{}()).ok().map(|v| v.to_string())", x.name), "None")
-                )
-            } else {
-                "let _ = datum; None".to_string()
-            },
-            convert_all_body = if last {
-                "let _ = form; panic!(\"glue: no next variant\")".to_string()
-            } else {
-                format!(
-                    r#"let out: Result<Vec<CappedRecord{nv}<CAP>>, ()> = truc_runtime::convert::try_convert_vec_in_place(self.0, move |rec, _prev| {{
-            let (i, keep, fail) = vdrive::ctx::conv_next();
-            if fail {{
-                drop(rec);
-                return Err(());
-            }}
-            if keep {{
-                let (n, outs) = conv_{v}::<CAP>(rec, form);
-                vdrive::ctx::conv_push_outs(i, outs);
-                Ok(truc_runtime::convert::VecElementConversionResult::Converted(n))
-            }} else {{
-                drop(rec);
-                Ok(truc_runtime::convert::VecElementConversionResult::Abandonned)
-            }}
-        }});
-        out.map(|v| Box::new(VecOf{nv}::<CAP>(v)) as Box<dyn vdrive::VecGlue>)"#,
-                    v = v,
-                    nv = v + 1
-                )
-            },
-        )
-        .unwrap();
-    }
-
-    // DefGlue
-    let mut new_full = String::new();
-    let mut new_uninit = String::new();
-    let mut de = String::new();
-    let mut layouts = String::from("(\"RecordUninitialized\".to_string(), std::mem::size_of::<RecordUninitialized<CAP>>(), std::mem::align_of::<RecordUninitialized<CAP>>())");
-    for v in 0..n {
-        let fs = fields_of(built, v);
-        writeln!(
-            new_full,
-            "            {v} => Box::new(CappedRecord{v}::<CAP>::new(UnpackedRecord{v} {{ {} }})),",
-            fs.iter().map(make_expr).collect::<Vec<_>>().join(", "),
-            v = v
-        )
-        .unwrap();
-        writeln!(
-            new_uninit,
-            "            {v} => Box::new(CappedRecord{v}::<CAP>::new_uninit(UnpackedUninitRecord{v} {{ {} }})),",
-            fs.iter().filter(|f| !f.uninit).map(make_expr).collect::<Vec<_>>().join(", "),
-            v = v
-        )
-        .unwrap();
-        writeln!(
-            de,
-            r#"            {v} => match fmt {{
-                0 => serde_json::from_slice::<CappedRecord{v}<CAP>>(bytes).map(|r| Box::new(r) as Box<dyn vdrive::RecGlue>).map_err(|e| e.to_string()),
-                1 => serde_json::from_slice::<serde_json::Value>(bytes).and_then(serde_json::from_value::<CappedRecord{v}<CAP>>).map(|r| Box::new(r) as Box<dyn vdrive::RecGlue>).map_err(|e| e.to_string()),
-                _ => bincode::deserialize::<CappedRecord{v}<CAP>>(bytes).map(|r| Box::new(r) as Box<dyn vdrive::RecGlue>).map_err(|e| e.to_string()),
-            }},"#,
-            v = v
-        )
-        .unwrap();
-        write!(
-            layouts,
-            ", (\"CappedRecord{v}\".to_string(), std::mem::size_of::<CappedRecord{v}<CAP>>(), std::mem::align_of::<CappedRecord{v}<CAP>>())",
-            v = v
-        )
-        .unwrap();
-    }
-    let info = info_json(built, index, fragsel, history);
-    writeln!(
-        w,
-        r#####"
-pub struct Def<const CAP: usize>;
-
-impl<const CAP: usize> vdrive::DefGlue for Def<CAP> {{
-    fn info_json(&self) -> &'static str {{ INFO_JSON }}
-    fn cap(&self) -> usize {{ CAP }}
-    fn max_size(&self) -> usize {{ MAX_SIZE }}
-    fn new_full(&self, variant: usize) -> Box<dyn vdrive::RecGlue> {{
-        match variant {{
-{new_full}            _ => panic!("glue: no variant {{}}", variant),
-        }}
-    }}
-    fn new_uninit(&self, variant: usize) -> Box<dyn vdrive::RecGlue> {{
-        match variant {{
-{new_uninit}            _ => panic!("glue: no variant {{}}", variant),
-        }}
-    }}
-    fn de(&self, variant: usize, fmt: u8, bytes: &[u8]) -> Option<Result<Box<dyn vdrive::RecGlue>, String>> {{
-        {de_body}
-    }}
-    fn layouts(&self) -> Vec<(String, usize, usize)> {{
-        vec![{layouts}]
-    }}
-}}
-
-pub const INFO_JSON: &str = r####"{info}"####;"#####,
-        new_full = new_full,
-        new_uninit = new_uninit,
-        de_body = if has_serde {
-            format!("Some(match variant {{\n{}            _ => panic!(\"glue: no variant {{}}\", variant),\n        }})", de)
-        } else {
-            "let _ = (variant, fmt, bytes); None".to_string()
-        },
-        layouts = layouts,
-        info = info,
-    )
-    .unwrap();
-    s
-}
-
-fn info_json(built: &Built, index: usize, fragsel: u8, history: &RHistory) -> String {
-    let variants: Vec<serde_json::Value> = (0..built.def.variants().count())
-        .map(|v| {
-            let var = built.def.variants().nth(v).unwrap();
-            let fields: Vec<serde_json::Value> = var
-                .data_sorted()
-                .map(|d| {
-                    let datum = &built.def[d];
-                    serde_json::json!({
-                        "id": datum_index(d),
-                        "name": datum.name(),
-                        "menu": built.menu[&datum_index(d)],
-                        "uninit": datum.details().allow_uninit(),
-                        "offset": datum.details().offset(),
-                        "size": datum.details().size(),
-                        "align": datum.details().type_align(),
-                    })
-                })
-                .collect();
-            serde_json::json!({ "fields": fields })
-        })
-        .collect();
-    serde_json::json!({
-        "index": index,
-        "fragsel": fragsel,
-        "max_size": built.def.max_size(),
-        "max_align": built.def.max_type_align(),
-        "variants": variants,
-        "history": serde_json::to_value(history).unwrap(),
-    })
-    .to_string()
-}
-
-fn write_if_changed(path: &Path, content: &str) {
-    if fs::read_to_string(path).map_or(true, |old| old != content) {
-        fs::write(path, content).expect("write generated file");
-    }
-}
-
-fn emit(out: &Path, histories: &[(usize, RHistory)], exclude: &[usize]) {
-    fs::create_dir_all(out).expect("out dir");
-    let mut all = String::from("// generated by e2_genstage\n");
-    let mut registry = String::new();
-    let mut summary = vec![];
-    for (k, h) in histories {
-        let built = build(h);
-        let code = generate(&built.def, &config_for(h.fragsel));
-        write_if_changed(&out.join(format!("def_{}.rs", k)), &code);
-        write_if_changed(&out.join(format!("glue_{}.rs", k)), &glue_for(&built, *k, h.fragsel, h));
-        write_if_changed(&out.join(format!("hist_{}.json", k)), &serde_json::to_string(h).unwrap());
-        summary.push(serde_json::json!({"index": k, "fragsel": h.fragsel, "variants": built.def.variants().count(), "excluded": exclude.contains(k)}));
-        if exclude.contains(k) {
-            continue;
-        }
-        writeln!(
-            all,
-            "pub mod def_{k} {{\n    #![allow(dead_code, unused_imports, unused_variables, unused_mut, clippy::all)]\n    include!(\"def_{k}.rs\");\n    include!(\"glue_{k}.rs\");\n}}",
-            k = k
-        )
-        .unwrap();
-        writeln!(
-            registry,
-            "        (&def_{k}::Def::<{{ def_{k}::MAX_SIZE }}>, &def_{k}::Def::<{{ def_{k}::MAX_SIZE + 5 }}>),",
-            k = k
-        )
-        .unwrap();
-    }
-    writeln!(
-        all,
-        "pub fn all_defs() -> Vec<(&'static dyn vdrive::DefGlue, &'static dyn vdrive::DefGlue)> {{\n    vec![\n{}    ]\n}}",
-        registry
-    )
-    .unwrap();
-    write_if_changed(&out.join("all.rs"), &all);
-    write_if_changed(&out.join("summary.json"), &serde_json::Value::Array(summary).to_string());
-    // remove stale files of a previous, larger batch
-    if let Ok(rd) = fs::read_dir(out) {
-        for e in rd.flatten() {
-            let name = e.file_name().to_string_lossy().to_string();
-            for prefix in ["def_", "glue_", "hist_"] {
-                if let Some(rest) = name.strip_prefix(prefix) {
-                    if let Some(num) = rest.split('.').next().and_then(|n| n.parse::<usize>().ok()) {
-                        if !histories.iter().any(|(k, _)| *k == num) {
-                            let _ = fs::remove_file(e.path());
-                        }
-                    }
-                }
-            }
-        }
-    }
-}
+use vcore::{env_seed, mix_seed};
 
 fn main() -> ExitCode {
     let args: Vec<String> = std::env::args().collect();
